@@ -257,3 +257,40 @@ def check_twice(runner, arrays, diff_idx, name, rows):
             return [{"kind": f"{name}:second-backward-differs", "detail": f"operand {k}: after two backward calls over the same graph the gradient is not "
                      "J^T g1 + J^T g2 (state saved by the forward was changed by the first backward)"}]
     return []
+
+
+def check_freeze(apply, arrays, diff_idx, name, rows):
+    """backward, then switch requires_grad off on some operands (their .grad stays), then a new forward/backward through the same
+    tensors: the frozen operands are outside the graph now - their gradients must not move; the others accumulate"""
+    if len(diff_idx) < 2:
+        return []
+    sg = harness.load()
+    viol = []
+    for keep in (diff_idx[0], diff_idx[-1]):
+        ts = [sg.Tensor(np.array(a, copy=True), requires_grad=(i in diff_idx)) for i, a in enumerate(arrays)]
+        try:
+            out = apply(ts)
+            g = values.dense_g(out.shape)
+            gt = lambda: sg.Tensor(np.asarray(g, dtype=out.dtype if out.dtype.kind == "f" else np.float64))
+            out.backward(gt())
+            snap = {k: np.asarray(ts[k].grad.data).tobytes() for k in diff_idx}
+            for k in diff_idx:
+                if k != keep: ts[k].requires_grad = False
+            out2 = apply(ts)
+            out2.backward(gt())
+        except harness.HarnessError:
+            raise
+        except Exception as e:
+            viol.append({"kind": f"{name}:freeze-then-backward-raised", "detail": f"{type(e).__name__}: {str(e)[:80]}"}); continue
+        for k in diff_idx:
+            gr = ts[k].grad
+            if k != keep:
+                if gr is None or np.asarray(gr.data).tobytes() != snap[k]:
+                    viol.append({"kind": f"{name}:frozen-operand-grad-changed", "detail": f"operand {k} was switched to requires_grad=False after a backward; "
+                                 "a later backward through the same tensors changed its .grad although it is outside the graph"}); break
+            else:
+                exp = 2 * (rows[k].T @ np.asarray(g, dtype=np.float64).reshape(-1))
+                if gr is None or not fd.close(np.asarray(gr.data, dtype=np.float64).reshape(-1), exp, 1e-9, 1e-11):
+                    viol.append({"kind": f"{name}:freeze-then-backward-wrong", "detail": f"operand {k} (still requiring grad) did not accumulate J^T g twice"}); break
+        if viol: break
+    return viol
